@@ -1,7 +1,9 @@
 ---------------------------- MODULE Trace_Verdict ----------------------------
 (* Code -> spec: gated schedules of chunked transfers on the real server     *)
 (* (aborted transfers whose backend returns at a harness-chosen later point) *)
-(* recorded as events start / abort / last / finish(t) / reply(t, verdict).  *)
+(* recorded as events start / begin(t) / abort / close / last / finish(t) /  *)
+(* reply(t, verdict); also the late-start schedules, in which the delivery   *)
+(* goroutine is held before it calls the backend.                            *)
 EXTENDS Verdict, Json
 
 Trace == ndJsonDeserialize("trace.ndjson")
@@ -11,11 +13,14 @@ Ev == Trace[l]
 TInit == l = 1 /\ Init
 TReset == /\ Ev.ev = "reset" /\ started' = 0 /\ cur' = 0 /\ chan' = [t \in Transfers |-> <<>>]
           /\ gpc' = [t \in Transfers |-> "none"] /\ waiting' = FALSE /\ reply' = [t \in Transfers |-> 0]
+          /\ closed' = FALSE /\ cbs' = <<>>
 TStep ==
   /\ l <= Len(Trace) /\ l' = l + 1
   /\ CASE Ev.ev = "reset" -> TReset
        [] Ev.ev = "start" -> Start /\ cur' = Ev.t
+       [] Ev.ev = "begin" -> Begin(Ev.t)
        [] Ev.ev = "abort" -> Abort
+       [] Ev.ev = "close" -> Close
        [] Ev.ev = "last" -> Last
        [] Ev.ev = "finish" -> Finish(Ev.t) /\ gpc'[Ev.t] = "done"
        [] Ev.ev = "reply" -> Reply /\ reply'[Ev.t] = Ev.v
